@@ -27,7 +27,7 @@ PROP = {
          "expect_cases": False, "timeout": 2400},
     ],
     "mismatch_is_failing": True,
-    "rule": "element kinds: Tr (drop-tracked id), Th (drop-tracked id + heap payload, also under AddressSanitizer in the thorough tier), Tz (drop-tracked zero-sized; count oracles instead of model lines), plain u32 without drop glue - each kind runs the same cases (thorough: depth 3 for Tr only). Cases: a pool of real objects (stack GenericArray<T,N>, GenericArrayIter, Box<GenericArray>, Vec, Box<[T]>, single elements; N in 0..=12) driven through the real API, outputs of one op moved into the next: (a) exhaustive - from every single-object start (each kind, N in 0..=4) and every pair of arrays / array+element (N,M in 0..=3), every sequence of up to 2 (thorough 3) type-correct operations out of the 41 (incl. try_from_iter / try_boxed_from_iter of a Vec of any length L into every target length 0..=L+2; all slots, split points, indices, dividing chunk lengths, skip counts up to one past the end; generate of length 0..=3, thorough 0..=2), then observe + drop of everything; (a') all lengths - from every start with N (and M) in 0..=12 every single operation: every (N,K) split, every (N,M) concat with N+M<=12, every dividing (NM,N) unflatten, every remove index, tuples and native arrays up to 12; (b) typing - every op code on every kind of object, on a cleared slot, on a missing slot, and with the same slot twice; (c) seeded histories (quick 600 x 12 ops + 100 x 40; thorough 5000 x 40 + 20000 x 12 + 200 x 150; about 5% ill-typed ops, skip counts up to usize::MAX). distinct = distinct CASE lines; non-trivial = at least two operations and at least one element dropped, observed or moved into a new object during the history",
+    "rule": "element kinds: Tr (drop-tracked id), Th (drop-tracked id + heap payload, also under AddressSanitizer in the thorough tier), Tz (drop-tracked zero-sized; count oracles instead of model lines), plain u32 without drop glue - each kind runs the same cases (thorough: depth 3 for Tr only). Cases: a pool of real objects (stack GenericArray<T,N>, GenericArrayIter, Box<GenericArray>, Vec, Box<[T]>, single elements; N in 0..=12) driven through the real API, outputs of one op moved into the next: (a) exhaustive - from every single-object start (each kind, N in 0..=4) and every pair of arrays / array+element (N,M in 0..=3), every sequence of up to 2 (thorough 3) type-correct operations out of the 41 (incl. try_from_iter / try_boxed_from_iter of a Vec of any length L into every target length 0..=L+2; all slots, split points, indices, dividing chunk lengths, skip counts up to one past the end; generate of length 0..=3, thorough 0..=2), then observe + drop of everything; (a') all lengths - from every start with N (and M) in 0..=12 every single operation: every (N,K) split, every (N,M) concat with N+M<=12, every dividing (NM,N) unflatten, every remove index, tuples and native arrays up to 12; (b) typing - every op code on every kind of object, on a cleared slot, on a missing slot, and with the same slot twice; (c) seeded histories (quick 600 x 12 ops + 100 x 40; thorough 5000 x 40 + 20000 x 12 + 200 x 150; about 5% ill-typed ops, skip counts up to usize::MAX). Further runs without a model line (direct exact-once oracles): c03big - 10000-element Tr conversions, split/concat/pop/append/prepend at N up to 10000, one-byte drop-tracked elements, GenericArrayIter::clone_from, map/zip through &plain and &mut plain receivers; c03provided - std's provided iterator methods (find, position, any, all, skip_while, filter, max, min_by_key, rev().find, step_by, for_each) over GenericArrayIter, every element released exactly once; c03inplace - serde deserialize_in_place over a live array. distinct = distinct CASE lines; non-trivial = at least two operations and at least one element dropped, observed or moved into a new object during the history",
     "nontrivial": lambda case, obs: len(case.split()) >= 5 and len(obs.split()) >= 8,
     "manifest": {
         "design_ref": "DESIGN.md section 7, C03",
